@@ -101,7 +101,7 @@ func (x *xl) src(n ast.Node) string {
 // ---------- types ----------
 
 // intType: width and signedness of an integer type (int, uint are 64 bits: checked in xlateMain)
-func intType(t types.Type) (w int, signed, ok bool) {
+func xIntType(t types.Type) (w int, signed, ok bool) {
 	b, isB := t.Underlying().(*types.Basic)
 	if !isB {
 		return
@@ -127,26 +127,26 @@ func intType(t types.Type) (w int, signed, ok bool) {
 	return
 }
 
-func isBool(t types.Type) bool {
+func xIsBool(t types.Type) bool {
 	b, ok := t.Underlying().(*types.Basic)
 	return ok && b.Info()&types.IsBoolean != 0
 }
-func isString(t types.Type) bool {
+func xIsString(t types.Type) bool {
 	b, ok := t.Underlying().(*types.Basic)
 	return ok && b.Info()&types.IsString != 0
 }
-func isBytes(t types.Type) bool {
-	if isString(t) {
+func xIsBytes(t types.Type) bool {
+	if xIsString(t) {
 		return true
 	}
 	s, ok := t.Underlying().(*types.Slice)
 	if !ok {
 		return false
 	}
-	w, sg, ok := intType(s.Elem())
+	w, sg, ok := xIntType(s.Elem())
 	return ok && w == 8 && !sg
 }
-func isError(t types.Type) bool { return t.String() == "error" }
+func xIsError(t types.Type) bool { return t.String() == "error" }
 
 func (x *xl) typeOf(e ast.Expr) types.Type {
 	t := x.info.TypeOf(e)
@@ -158,22 +158,22 @@ func (x *xl) typeOf(e ast.Expr) types.Type {
 
 // coqType: the Gallina type that represents values of the Go type t
 func (x *xl) coqType(n ast.Node, t types.Type) string {
-	if _, _, ok := intType(t); ok {
+	if _, _, ok := xIntType(t); ok {
 		return "Z"
 	}
 	switch {
-	case isBool(t):
+	case xIsBool(t):
 		return "bool"
-	case isBytes(t):
+	case xIsBytes(t):
 		return "(list N)"
-	case isError(t):
+	case xIsError(t):
 		return "bool"
 	}
 	if s, ok := t.Underlying().(*types.Slice); ok {
 		return "(list " + x.coqType(n, s.Elem()) + ")"
 	}
 	if m, ok := t.Underlying().(*types.Map); ok { // integer-keyed maps: association lists (iteration is outside the subset)
-		if _, _, ok := intType(m.Key()); ok {
+		if _, _, ok := xIntType(m.Key()); ok {
 			return "(list (Z * " + x.coqType(n, m.Elem()) + "))"
 		}
 	}
@@ -200,13 +200,13 @@ func (x *xl) record(n ast.Node, nm *types.Named) string {
 }
 
 func (x *xl) zero(n ast.Node, t types.Type) string {
-	if _, _, ok := intType(t); ok {
+	if _, _, ok := xIntType(t); ok {
 		return "0"
 	}
 	switch {
-	case isBool(t), isError(t):
+	case xIsBool(t), xIsError(t):
 		return "false"
-	case isBytes(t):
+	case xIsBytes(t):
 		return "(@nil N)"
 	}
 	if s, ok := t.Underlying().(*types.Slice); ok {
@@ -227,7 +227,7 @@ func (x *xl) zero(n ast.Node, t types.Type) string {
 }
 
 func (x *xl) wrap(n ast.Node, t types.Type, term string) string {
-	w, signed, ok := intType(t)
+	w, signed, ok := xIntType(t)
 	if !ok {
 		x.fail(n, "integer type expected, found %s", t)
 	}
@@ -338,21 +338,21 @@ func (x *xl) namedConst(e ast.Expr, v constant.Value) string {
 		return ""
 	}
 	n := "k_" + c.Pkg().Name() + "_" + c.Name()
-	if old, ok := x.consts[n]; ok && old != lit(v) {
+	if old, ok := x.consts[n]; ok && old != xLit(v) {
 		x.fail(e, "two different constants map to %s", n)
 	}
 	if _, ok := x.consts[n]; !ok {
 		*x.constOrd = append(*x.constOrd, n)
 	}
-	x.consts[n] = lit(v)
+	x.consts[n] = xLit(v)
 	return n
 }
 
 // ---------- expressions ----------
 
-type guards []string
+type xGuards []string
 
-func conj(g guards) string {
+func xConj(g xGuards) string {
 	if len(g) == 0 {
 		return "true"
 	}
@@ -363,14 +363,14 @@ func conj(g guards) string {
 	return s
 }
 
-func guarded(g guards, term string) string {
+func xGuarded(g xGuards, term string) string {
 	if len(g) == 0 {
 		return term
 	}
-	return "if " + conj(g) + " then (" + term + ") else Panic" // the run-time checks of the statement
+	return "if " + xConj(g) + " then (" + term + ") else Panic" // the run-time checks of the statement
 }
 
-func lit(v constant.Value) string {
+func xLit(v constant.Value) string {
 	s := v.ExactString()
 	if strings.HasPrefix(s, "-") {
 		return "(" + s + ")"
@@ -378,7 +378,7 @@ func lit(v constant.Value) string {
 	return s
 }
 
-func bytesLit(s string) string {
+func xBytesLit(s string) string {
 	t := "(@nil N)"
 	for i := len(s) - 1; i >= 0; i-- {
 		t = fmt.Sprintf("(%d%%N :: %s)", s[i], t)
@@ -386,7 +386,7 @@ func bytesLit(s string) string {
 	return t
 }
 
-func (x *xl) expr(e ast.Expr, g *guards) string {
+func (x *xl) expr(e ast.Expr, g *xGuards) string {
 	if o, ok := x.unit.Oracles[x.src(e)]; ok {
 		if prev, used := x.oracleAt[o.Name]; (used && prev != e) || x.loops > 0 {
 			x.fail(e, "oracle expression %s is used more than once (or in a loop)", x.src(e))
@@ -406,11 +406,11 @@ func (x *xl) expr(e ast.Expr, g *guards) string {
 			if n := x.namedConst(e, tv.Value); n != "" {
 				return n
 			}
-			return lit(tv.Value)
+			return xLit(tv.Value)
 		case constant.Bool:
 			return tv.Value.String()
 		case constant.String:
-			return bytesLit(constant.StringVal(tv.Value))
+			return xBytesLit(constant.StringVal(tv.Value))
 		}
 		x.fail(e, "constant %s of a kind outside the subset", x.src(e))
 	}
@@ -449,7 +449,7 @@ func (x *xl) expr(e ast.Expr, g *guards) string {
 		}
 		l, i := x.expr(e.X, g), x.expr(e.Index, g)
 		*g = append(*g, "(go_in_range "+l+" "+i+")")
-		if isBytes(t) {
+		if xIsBytes(t) {
 			return "(Z.of_N (go_nth " + l + " " + i + " 0%N))"
 		}
 		if s, ok := t.Underlying().(*types.Slice); ok {
@@ -458,7 +458,7 @@ func (x *xl) expr(e ast.Expr, g *guards) string {
 		x.fail(e, "indexing a value of type %s is outside the subset", t)
 	case *ast.SliceExpr:
 		t := x.typeOf(e.X)
-		if _, ok := t.Underlying().(*types.Slice); !(ok || isString(t)) || e.Slice3 {
+		if _, ok := t.Underlying().(*types.Slice); !(ok || xIsString(t)) || e.Slice3 {
 			x.fail(e, "slicing of %s (or a 3-index slice) is outside the subset", t)
 		}
 		l := x.expr(e.X, g)
@@ -486,11 +486,11 @@ func (x *xl) expr(e ast.Expr, g *guards) string {
 	return ""
 }
 
-func (x *xl) binary(e *ast.BinaryExpr, g *guards) string {
+func (x *xl) binary(e *ast.BinaryExpr, g *xGuards) string {
 	switch e.Op {
 	case token.LAND, token.LOR: // the right operand (and its checks) is evaluated only if needed
 		a := x.expr(e.X, g)
-		var gr guards
+		var gr xGuards
 		b := x.expr(e.Y, &gr)
 		// written with [if] (convertible to andb / orb / implb): evaluation, too, skips the right operand
 		for _, c := range gr {
@@ -530,7 +530,7 @@ func (x *xl) binary(e *ast.BinaryExpr, g *guards) string {
 func (x *xl) compare(e *ast.BinaryExpr, t types.Type, a, b string) string {
 	{
 		var r string
-		_, _, isInt := intType(t)
+		_, _, isInt := xIntType(t)
 		switch {
 		case isInt:
 			switch e.Op {
@@ -545,16 +545,16 @@ func (x *xl) compare(e *ast.BinaryExpr, t types.Type, a, b string) string {
 			case token.GEQ:
 				return "(" + b + " <=? " + a + ")"
 			}
-		case isBool(t) && (e.Op == token.EQL || e.Op == token.NEQ):
+		case xIsBool(t) && (e.Op == token.EQL || e.Op == token.NEQ):
 			r = "(Bool.eqb " + a + " " + b + ")"
-		case isBytes(t) && isString(t) && (e.Op == token.EQL || e.Op == token.NEQ):
+		case xIsBytes(t) && xIsString(t) && (e.Op == token.EQL || e.Op == token.NEQ):
 			r = "(go_bytes_eqb " + a + " " + b + ")"
-		case isError(t) && (e.Op == token.EQL || e.Op == token.NEQ): // comparison with nil only
+		case xIsError(t) && (e.Op == token.EQL || e.Op == token.NEQ): // comparison with nil only
 			if !x.info.Types[e.Y].IsNil() && !x.info.Types[e.X].IsNil() {
 				x.fail(e, "errors can only be compared with nil")
 			}
 			r = "(Bool.eqb " + a + " " + b + ")"
-		case !isBytes(t) && (e.Op == token.EQL || e.Op == token.NEQ) && (x.info.Types[e.Y].IsNil() || x.info.Types[e.X].IsNil()):
+		case !xIsBytes(t) && (e.Op == token.EQL || e.Op == token.NEQ) && (x.info.Types[e.Y].IsNil() || x.info.Types[e.X].IsNil()):
 			x.fail(e, "comparison of a %s with nil is outside the subset", t)
 		default:
 			x.fail(e, "comparison %s of values of type %s is outside the subset", e.Op, t)
@@ -567,9 +567,9 @@ func (x *xl) compare(e *ast.BinaryExpr, t types.Type, a, b string) string {
 }
 
 // arith: a op b for integer operands, wrapped to the width of the result type where the operation can leave it
-func (x *xl) arith(e *ast.BinaryExpr, a, b string, g *guards) string {
+func (x *xl) arith(e *ast.BinaryExpr, a, b string, g *xGuards) string {
 	t := x.typeOf(e)
-	if _, _, ok := intType(t); !ok {
+	if _, _, ok := xIntType(t); !ok {
 		x.fail(e, "operator %s on type %s is outside the subset", e.Op, t)
 	}
 	switch e.Op {
@@ -606,22 +606,22 @@ func (x *xl) arith(e *ast.BinaryExpr, a, b string, g *guards) string {
 	return ""
 }
 
-func (x *xl) call(e *ast.CallExpr, g *guards) string {
+func (x *xl) call(e *ast.CallExpr, g *xGuards) string {
 	if tv := x.info.Types[e.Fun]; tv.IsType() { // conversion T(v)
 		if len(e.Args) != 1 {
 			x.fail(e, "conversion with %d arguments", len(e.Args))
 		}
 		from, to := x.typeOf(e.Args[0]), tv.Type
 		a := x.expr(e.Args[0], g)
-		fw, fs, fok := intType(from)
-		tw, ts, tok := intType(to)
+		fw, fs, fok := xIntType(from)
+		tw, ts, tok := xIntType(to)
 		switch {
 		case fok && tok:
 			if (fs == ts && fw <= tw) || (!fs && ts && fw < tw) { // every value of the source type fits
 				return a
 			}
 			return x.wrap(e, to, a)
-		case isBytes(from) && isBytes(to):
+		case xIsBytes(from) && xIsBytes(to):
 			return a
 		}
 		x.fail(e, "conversion from %s to %s is outside the subset", from, to)
@@ -630,7 +630,7 @@ func (x *xl) call(e *ast.CallExpr, g *guards) string {
 		if b, ok := x.info.ObjectOf(id).(*types.Builtin); ok {
 			if b.Name() == "len" {
 				t := x.typeOf(e.Args[0])
-				if _, isSlice := t.Underlying().(*types.Slice); !(isSlice || isString(t)) {
+				if _, isSlice := t.Underlying().(*types.Slice); !(isSlice || xIsString(t)) {
 					x.fail(e, "len of a %s is outside the subset", t)
 				}
 				return "(go_len " + x.expr(e.Args[0], g) + ")"
@@ -658,7 +658,7 @@ func (x *xl) call(e *ast.CallExpr, g *guards) string {
 	return ""
 }
 
-func (x *xl) composite(e *ast.CompositeLit, g *guards) string {
+func (x *xl) composite(e *ast.CompositeLit, g *xGuards) string {
 	if m, ok := x.typeOf(e).Underlying().(*types.Map); ok {
 		t := "(@nil (Z * " + x.coqType(e, m.Elem()) + "))"
 		x.coqType(e, x.typeOf(e))
@@ -707,7 +707,7 @@ func (x *xl) mapVar(e *ast.IndexExpr) string {
 }
 
 // make([]T, n) / make([]T, n, c) / make(map[K]V): n zero values (make panics unless 0 <= n <= c) / the empty map
-func (x *xl) makeCall(e *ast.CallExpr, g *guards) string {
+func (x *xl) makeCall(e *ast.CallExpr, g *xGuards) string {
 	t := x.typeOf(e)
 	if _, ok := t.Underlying().(*types.Map); ok {
 		return x.zero(e, t)
@@ -722,7 +722,7 @@ func (x *xl) makeCall(e *ast.CallExpr, g *guards) string {
 		*g = append(*g, "("+n+" <=? "+x.expr(e.Args[2], g)+")")
 	}
 	z := x.zero(e, sl.Elem())
-	if isBytes(t) {
+	if xIsBytes(t) {
 		z = "0%N"
 	}
 	return "(go_make " + n + " " + z + ")"
@@ -833,7 +833,7 @@ func (x *xl) state(n ast.Node, vs []*types.Var) (term, typ, bind string) {
 }
 
 // falls: can control reach the end of the statements?
-func falls(ss []ast.Stmt) bool {
+func xFalls(ss []ast.Stmt) bool {
 	if len(ss) == 0 {
 		return true
 	}
@@ -841,17 +841,17 @@ func falls(ss []ast.Stmt) bool {
 	case *ast.ReturnStmt:
 		return false
 	case *ast.BlockStmt:
-		return falls(s.List)
+		return xFalls(s.List)
 	case *ast.IfStmt:
 		if s.Else == nil {
 			return true
 		}
-		return falls(s.Body.List) || falls([]ast.Stmt{s.Else})
+		return xFalls(s.Body.List) || xFalls([]ast.Stmt{s.Else})
 	}
 	return true
 }
 
-func ind(d int) string { return "\n" + strings.Repeat("  ", d) }
+func xInd(d int) string { return "\n" + strings.Repeat("  ", d) }
 
 // block: the statements ss followed by the continuation k (a ctl term), at nesting depth d
 func (x *xl) block(ss []ast.Stmt, k string, d int) string {
@@ -878,7 +878,7 @@ func (x *xl) ret(vals []string) string {
 }
 
 // writerCall: is e a call that appends to the receiver? Returns the ctl term of the callee, or the bytes appended.
-func (x *xl) writerCall(e ast.Expr, g *guards) (callee, prim string, ok bool) {
+func (x *xl) writerCall(e ast.Expr, g *xGuards) (callee, prim string, ok bool) {
 	c, isCall := e.(*ast.CallExpr)
 	if !isCall || x.unit.Writer == nil {
 		return
@@ -905,11 +905,11 @@ func (x *xl) writerCall(e ast.Expr, g *guards) (callee, prim string, ok bool) {
 }
 
 // effect: a writer call whose error result is bound to the variable named errv ("_" to drop it)
-func (x *xl) effect(callee, prim, errv string, g guards, k string, d int) string {
+func (x *xl) effect(callee, prim, errv string, g xGuards, k string, d int) string {
 	if prim != "" {
-		return guarded(g, "let out := out ++ "+prim+" in let "+errv+" := false in"+ind(d)+k)
+		return xGuarded(g, "let out := out ++ "+prim+" in let "+errv+" := false in"+xInd(d)+k)
 	}
-	return guarded(g, "go_call "+callee+" (fun r__ => let '(out, "+errv+") := r__ in"+ind(d)+k+")")
+	return xGuarded(g, "go_call "+callee+" (fun r__ => let '(out, "+errv+") := r__ in"+xInd(d)+k+")")
 }
 
 func (x *xl) stmt(s ast.Stmt, rest func() string, d int) string {
@@ -919,7 +919,7 @@ func (x *xl) stmt(s ast.Stmt, rest func() string, d int) string {
 	case *ast.BlockStmt:
 		return x.block(s.List, rest(), d)
 	case *ast.ReturnStmt:
-		var g guards
+		var g xGuards
 		if len(s.Results) == 1 {
 			if callee, prim, ok := x.writerCall(s.Results[0], &g); ok {
 				return x.effect(callee, prim, "err__", g, x.ret([]string{"err__"}), d)
@@ -936,13 +936,13 @@ func (x *xl) stmt(s ast.Stmt, rest func() string, d int) string {
 				vs = append(vs, x.expr(r, &g))
 			}
 		}
-		return guarded(g, x.ret(vs))
+		return xGuarded(g, x.ret(vs))
 	case *ast.DeclStmt:
 		gd, ok := s.Decl.(*ast.GenDecl)
 		if !ok || gd.Tok != token.VAR {
 			x.fail(s, "only var declarations are in the subset")
 		}
-		var g guards
+		var g xGuards
 		var lets []string
 		for _, sp := range gd.Specs {
 			vs := sp.(*ast.ValueSpec)
@@ -962,9 +962,9 @@ func (x *xl) stmt(s ast.Stmt, rest func() string, d int) string {
 				}
 			}
 		}
-		return guarded(g, strings.Join(lets, " ")+ind(d)+rest())
+		return xGuarded(g, strings.Join(lets, " ")+xInd(d)+rest())
 	case *ast.ExprStmt:
-		var g guards
+		var g xGuards
 		if callee, prim, ok := x.writerCall(s.X, &g); ok {
 			return x.effect(callee, prim, "_", g, rest(), d)
 		}
@@ -979,28 +979,28 @@ func (x *xl) stmt(s ast.Stmt, rest func() string, d int) string {
 		if s.Tok == token.DEC {
 			op = " - 1"
 		}
-		return "let " + n + " := " + x.wrap(s, x.typeOf(s.X), "("+n+op+")") + " in" + ind(d) + rest()
+		return "let " + n + " := " + x.wrap(s, x.typeOf(s.X), "("+n+op+")") + " in" + xInd(d) + rest()
 	case *ast.AssignStmt:
 		return x.assign(s, rest, d)
 	case *ast.IfStmt:
 		if s.Init != nil {
 			return x.stmt(s.Init, func() string { c := *s; c.Init = nil; return x.stmt(&c, rest, d) }, d)
 		}
-		var g guards
+		var g xGuards
 		c := x.expr(s.Cond, &g)
 		var els []ast.Stmt
 		if s.Else != nil {
 			els = []ast.Stmt{s.Else}
 		}
 		vs := x.assigned(append(append([]ast.Stmt{}, s.Body.List...), els...))
-		if len(vs) == 0 && x.unit.Writer == nil && !(falls(s.Body.List) && falls(els)) {
+		if len(vs) == 0 && x.unit.Writer == nil && !(xFalls(s.Body.List) && xFalls(els)) {
 			// at most one branch continues: no merge needed, the continuation goes into that branch
 			k := rest()
-			return guarded(g, "if "+c+ind(d)+"then "+x.block(s.Body.List, k, d+1)+ind(d)+"else "+x.block(els, k, d+1))
+			return xGuarded(g, "if "+c+xInd(d)+"then "+x.block(s.Body.List, k, d+1)+xInd(d)+"else "+x.block(els, k, d+1))
 		}
 		term, _, bind := x.state(s, vs)
-		return guarded(g, "bindc (if "+c+ind(d+1)+"then "+x.block(s.Body.List, "Next "+term, d+2)+
-			ind(d+1)+"else "+x.block(els, "Next "+term, d+2)+")"+ind(d)+"("+bind+ind(d)+rest()+")")
+		return xGuarded(g, "bindc (if "+c+xInd(d+1)+"then "+x.block(s.Body.List, "Next "+term, d+2)+
+			xInd(d+1)+"else "+x.block(els, "Next "+term, d+2)+")"+xInd(d)+"("+bind+xInd(d)+rest()+")")
 	case *ast.SwitchStmt:
 		return x.switchStmt(s, rest, d)
 	case *ast.RangeStmt:
@@ -1013,7 +1013,7 @@ func (x *xl) stmt(s ast.Stmt, rest func() string, d int) string {
 }
 
 func (x *xl) assign(s *ast.AssignStmt, rest func() string, d int) string {
-	var g guards
+	var g xGuards
 	// writer call: err = CALL, err := CALL, _ = CALL, and _, err = CALL for a primitive that also returns a count
 	if (len(s.Lhs) == 1 || (len(s.Lhs) == 2 && x.src(s.Lhs[0]) == "_")) && len(s.Rhs) == 1 {
 		if callee, prim, ok := x.writerCall(s.Rhs[0], &g); ok {
@@ -1048,12 +1048,12 @@ func (x *xl) assign(s *ast.AssignStmt, rest func() string, d int) string {
 					var es []string
 					for _, a := range c.Args[1:] {
 						el := x.expr(a, &g)
-						if isBytes(lv.Type()) {
+						if xIsBytes(lv.Type()) {
 							el = "(Z.to_N " + el + ")"
 						}
 						es = append(es, el)
 					}
-					return guarded(g, "let "+n+" := "+n+" ++ ["+strings.Join(es, "; ")+"] in"+ind(d)+rest())
+					return xGuarded(g, "let "+n+" := "+n+" ++ ["+strings.Join(es, "; ")+"] in"+xInd(d)+rest())
 				}
 			}
 		}
@@ -1091,10 +1091,10 @@ func (x *xl) assign(s *ast.AssignStmt, rest func() string, d int) string {
 		vs = append(vs, v)
 	}
 	if len(ns) == 1 {
-		return guarded(g, "let "+ns[0]+" := "+vs[0]+" in"+ind(d)+rest())
+		return xGuarded(g, "let "+ns[0]+" := "+vs[0]+" in"+xInd(d)+rest())
 	}
 	// all right-hand sides are evaluated before any variable is assigned
-	return guarded(g, "let '("+strings.Join(ns, ", ")+") := ("+strings.Join(vs, ", ")+") in"+ind(d)+rest())
+	return xGuarded(g, "let '("+strings.Join(ns, ", ")+") := ("+strings.Join(vs, ", ")+") in"+xInd(d)+rest())
 }
 
 // switch tag { case c1, c2: ...; default: ... } without fallthrough/break: an if-chain on the tag
@@ -1105,10 +1105,10 @@ func (x *xl) switchStmt(s *ast.SwitchStmt, rest func() string, d int) string {
 	if s.Tag == nil {
 		x.fail(s, "switch without a tag is outside the subset")
 	}
-	var g guards
+	var g xGuards
 	tag := x.expr(s.Tag, &g)
 	tt := x.typeOf(s.Tag)
-	if _, _, ok := intType(tt); !ok {
+	if _, _, ok := xIntType(tt); !ok {
 		x.fail(s, "switch on a value of type %s is outside the subset", tt)
 	}
 	x.tmp++
@@ -1144,18 +1144,18 @@ func (x *xl) switchStmt(s *ast.SwitchStmt, rest func() string, d int) string {
 			if tvv.Value == nil || tvv.Value.Kind() != constant.Int {
 				x.fail(ce, "case %s is not an integer constant", x.src(ce))
 			}
-			t := "(" + tv + " =? " + lit(tvv.Value) + ")"
+			t := "(" + tv + " =? " + xLit(tvv.Value) + ")"
 			if cond == "" {
 				cond = t
 			} else {
 				cond = "(orb " + cond + " " + t + ")"
 			}
 		}
-		chain += "if " + cond + " then " + x.block(cc.Body, "Next "+term, d+2) + ind(d+1) + "else ("
+		chain += "if " + cond + " then " + x.block(cc.Body, "Next "+term, d+2) + xInd(d+1) + "else ("
 		closep += ")"
 	}
 	chain += x.block(def, "Next "+term, d+2) + closep
-	return guarded(g, "let "+tv+" := "+tag+" in"+ind(d)+"bindc ("+chain+")"+ind(d)+"("+bind+ind(d)+rest()+")")
+	return xGuarded(g, "let "+tv+" := "+tag+" in"+xInd(d)+"bindc ("+chain+")"+xInd(d)+"("+bind+xInd(d)+rest()+")")
 }
 
 func (x *xl) noBranch(body *ast.BlockStmt) {
@@ -1175,7 +1175,7 @@ func (x *xl) rangeStmt(s *ast.RangeStmt, rest func() string, d int) string {
 		x.fail(s, "range over %s (or with '=') is outside the subset", t)
 	}
 	x.noBranch(s.Body)
-	var g guards
+	var g xGuards
 	l := x.expr(s.X, &g)
 	kn, vn := "_", "_"
 	if id, ok := s.Key.(*ast.Ident); ok && id.Name != "_" {
@@ -1185,15 +1185,15 @@ func (x *xl) rangeStmt(s *ast.RangeStmt, rest func() string, d int) string {
 		vn = x.declare(x.info.ObjectOf(id))
 	}
 	et := x.coqType(s, sl.Elem())
-	if isBytes(t) {
+	if xIsBytes(t) {
 		x.fail(s, "range over bytes is outside the subset")
 	}
 	vs := x.assigned(s.Body.List)
 	term, _, bind := x.state(s, vs)
 	x.loops++
 	defer func() { x.loops-- }()
-	return guarded(g, "bindc (go_range "+l+" (fun ("+kn+" : Z) ("+vn+" : "+et+") => "+bind+ind(d+1)+
-		x.block(s.Body.List, "Next "+term, d+1)+") "+term+")"+ind(d)+"("+bind+ind(d)+rest()+")")
+	return xGuarded(g, "bindc (go_range "+l+" (fun ("+kn+" : Z) ("+vn+" : "+et+") => "+bind+xInd(d+1)+
+		x.block(s.Body.List, "Next "+term, d+1)+") "+term+")"+xInd(d)+"("+bind+xInd(d)+rest()+")")
 }
 
 // for i := a; i < n; i++ { body } where the body assigns neither i nor a variable n mentions: a counted fold
@@ -1217,7 +1217,7 @@ func (x *xl) forStmt(s *ast.ForStmt, rest func() string, d int) string {
 	if pi, ok := post.X.(*ast.Ident); !ok || x.info.ObjectOf(pi) != iv {
 		bad()
 	}
-	if _, _, isInt := intType(iv.Type()); !isInt {
+	if _, _, isInt := xIntType(iv.Type()); !isInt {
 		bad()
 	}
 	x.noBranch(s.Body)
@@ -1246,13 +1246,13 @@ func (x *xl) forStmt(s *ast.ForStmt, rest func() string, d int) string {
 		}
 		return true
 	})
-	var g guards
+	var g xGuards
 	a := x.expr(init.Rhs[0], &g)
 	in := x.declare(iv)
 	n := x.expr(cond.Y, &g)
 	term, _, bind := x.state(s, vs)
 	x.loops++
 	defer func() { x.loops-- }()
-	return guarded(g, "bindc (go_count "+a+" "+n+" (fun ("+in+" : Z) => "+bind+ind(d+1)+
-		x.block(s.Body.List, "Next "+term, d+1)+") "+term+")"+ind(d)+"("+bind+ind(d)+rest()+")")
+	return xGuarded(g, "bindc (go_count "+a+" "+n+" (fun ("+in+" : Z) => "+bind+xInd(d+1)+
+		x.block(s.Body.List, "Next "+term, d+1)+") "+term+")"+xInd(d)+"("+bind+xInd(d)+rest()+")")
 }
